@@ -3,7 +3,7 @@ use crate::games::ffow::types::Response;
 use crate::protocols::types::TimeoutSettings;
 use crate::protocols::valve::{Engine, Environment, Server, ValveProtocol};
 use crate::GDResult;
-use byteorder::LittleEndian;
+use byteorder::BigEndian;
 use std::net::{IpAddr, SocketAddr};
 
 pub fn query(address: &IpAddr, port: Option<u16>) -> GDResult<Response> { query_with_timeout(address, port, None) }
@@ -24,7 +24,8 @@ pub fn query_with_timeout(
         String::from("LSQ").into_bytes(),
     )?;
 
-    let mut buffer = Buffer::<LittleEndian>::new(&data);
+    // The FFOW info reply is big endian (node-gamedig's ffow reader sets `byteorder = 'be'`).
+    let mut buffer = Buffer::<BigEndian>::new(&data);
 
     let protocol_version = buffer.read::<u8>()?;
     let name = buffer.read_string::<Utf8Decoder>(None)?;
